@@ -2,7 +2,10 @@
 
 package s3db
 
-import "github.com/jrhy/s3db/kv"
+import (
+	"github.com/jrhy/s3db/kv"
+	"google.golang.org/protobuf/proto"
+)
 
 // VerifS3, when set by the simulator, may supply the object-store client
 // (and adjust endpoint/bucket) for an OpenKV call.
@@ -13,4 +16,10 @@ func verifS3(opts *S3Options) (kv.S3Interface, bool) {
 		return nil, false
 	}
 	return VerifS3(opts)
+}
+
+// verifMarshal encodes a node with map fields in sorted order so that node
+// bytes (and therefore content-derived object names) replay exactly.
+func verifMarshal(m proto.Message) ([]byte, error) {
+	return proto.MarshalOptions{Deterministic: true}.Marshal(m)
 }
